@@ -113,7 +113,7 @@ const c16Delim = "\xac"
 
 func c16Cases(thorough bool) (out []c16Case) {
 	toks := []string{"REMOTE", "SERVER", "CLIENT", "AGGREGATE", "|", ".", ".syn close connection", "x", "100", " 42", "WARN", "ERROR", "FATAL",
-		"\n", c16Delim, "∥", "≔", "1", "k", "\x1b[31m"}
+		"\n", c16Delim, "∥", "≔", "1", "k", "\x1b[31m", "\r", "\r\n"}
 	n := 4
 	if thorough {
 		n = 5
@@ -131,7 +131,7 @@ func c16Cases(thorough bool) (out []c16Case) {
 		"REMOTEX|a|b|c|d|e|f|g", "SERVER|h|ERROR|boom", "SERVER|h", "SERVER", "CLIENT|h|FATAL|x", "CLIENT|h", "CLIENT",
 		"AGGREGATE|h|k∥1∥count(x)≔1∥sum(y)≔2∥", "AGGREGATE|h|k∥x∥count(x)≔1∥", "AGGREGATE|h|k∥1", "AGGREGATE|h", "AGGREGATE", "A", "",
 		"AGGREGATE|h|k∥1∥count(x)≔notanumber∥sum(y)≔∥", "AGGREGATE|h|∥∥∥∥", ".syn close connection", ".", ".unknown",
-		"REMOTE|h|100|1|f|text with € and \xff bytes", "REMOTE|h|100|1|f|a\nb", "plain text\n", "\n\n",
+		"REMOTE|h|100|1|f|text with € and \xff bytes", "REMOTE|h|100|1|f|a\nb", "plain text\n", "\n\n", "REMOTE|h|100|1|f|GET / HTTP/1.1\r\n", "SERVER|h|WARN|progress 50%\r", "plain\r\n", "CLIENT|h|ERROR|x\r\r\n",
 	}
 	var small []string
 	c10Seq(toks, 1, "", func(m string) { small = append(small, m) })
@@ -165,7 +165,7 @@ func init() {
 	Register(&Check{
 		ID:    "C16",
 		Level: "exploration",
-		Rule: "server byte streams enumerated exhaustively: every message of <=4 (quick) / <=5 (thorough) tokens over a 20-token alphabet (record words, '|', '.', the hidden close message, numbers, severities, " +
+		Rule: "server byte streams enumerated exhaustively: every message of <=4 (quick) / <=5 (thorough) tokens over a 22-token alphabet (incl. CR and CRLF) (record words, '|', '.', the hidden close message, numbers, severities, " +
 			"newline, the 0xAC message delimiter, the aggregate delimiters, an escape sequence), 30 well-formed/nearly well-formed records followed by every record or token, each record split across two Write calls " +
 			"at every byte; each stream is fed to the real ClientHandler, MaprHandler and HealthHandler twice (colours off/on) under the controlled scheduler; oracle: no panic in any goroutine and " +
 			"strip(coloured) == strip(uncoloured) where strip removes SGR escape sequences (applied to both sides); non-trivial = the stream makes the client print something",
